@@ -71,8 +71,6 @@ def gen_tree(rng, size, base, patt=None):
             for i in range(rng.randrange(0, 3)):
                 blocks.append(link_block(rng, rng.randrange(100)))
             for tgt in rng.sample(listed, min(len(listed), rng.randrange(0, 3))):
-                if tgt in hidden and tgt not in link_hidden:
-                    continue         # dropped by its .cap file: a block for it would ADD an entry (C08's subject)
                 if rng.random() < 0.35:
                     link_hidden.add(tgt)
                     blocks.append("Type=X\nPath=./%s\n" % tgt)
@@ -80,13 +78,14 @@ def gen_tree(rng, size, base, patt=None):
                 else:
                     blocks.append("Path=./%s\nName=%s\n%s" % (tgt, rng.choice(["Renamed " + tgt, "AAA", "zzz"]),
                                                                rng.choice(["", "Numb=%d\n" % rng.choice([-1, 1, 2, 3])])))
+            if rng.random() < 0.2:
+                blocks.append("Type=%s\nPath=./no-such-file-%d\n" % (rng.choice("X-"), rng.randrange(9)))  # nothing to hide
             rng.shuffle(blocks)
             text = "\n".join(blocks) if blocks else rng.choice(["", "# just a comment\n", "free text\n"])
             tree.append({"path": tp(pre + n), "data": td(text)})
     if ".cap" in names:
+        # a file hidden by its .cap file stays hidden even when link blocks (above) name it too
         for tgt in rng.sample(listed, min(len(listed), 2)):
-            if tgt in hidden:
-                continue
             if rng.random() < 0.4:
                 tree.append({"path": tp(pre + ".cap/" + tgt), "data": "Type=%s\n" % rng.choice("X-")})
                 hidden.add(tgt)
@@ -114,10 +113,15 @@ def hide_sequence_tree(rng, base):
     per_file = {l: [] for l in links}
     hidden = set()
     for tgt in rng.sample(files, rng.randrange(1, min(3, len(files)) + 1)):
-        seq = [rng.choice(["hideX", "hide-", "title", "numb"]) for _ in range(rng.randrange(2, 4))]
+        seq = [rng.choice(["hideX", "hide-", "title", "numb", "caphide"]) for _ in range(rng.randrange(2, 4))]
         if rng.random() < 0.8 and not any(k.startswith("hide") for k in seq):
-            seq[rng.randrange(len(seq))] = rng.choice(["hideX", "hide-"])
+            seq[rng.randrange(len(seq))] = rng.choice(["hideX", "hide-", "caphide"])
         for k in seq:
+            if k == "caphide":
+                if not any(t["path"] == pre + ".cap/" + tgt for t in tree):
+                    tree.append({"path": pre + ".cap/" + tgt, "data": "Type=%s\n" % rng.choice("X-")})
+                hidden.add(tgt)
+                continue
             if k == "hideX":
                 b = "Type=X\nPath=./%s\n" % tgt
             elif k == "hide-":
@@ -131,7 +135,8 @@ def hide_sequence_tree(rng, base):
                 hidden.add(tgt)
     for l in links:
         tree.append({"path": pre + l, "data": "\n".join(per_file[l])})
-    return tree, files + links, hidden
+    names = files + links + ([".cap"] if any("/.cap/" in "/" + t["path"] for t in tree) else [])
+    return tree, names, hidden
 
 
 def matching_dirs(patt):
@@ -406,7 +411,28 @@ def run(tier):
                                   tag="c07-listing-raises")
                     continue
                 got = sorted(dirsels[e["selector"]] for e in res_["entries"] if e["selector"] in dirsels)
-                if got != exp:
+                markers = [e["selector"] for e in res_["entries"] if e["type"] in ("X", "-")]
+                if kind == "umn" and markers:
+                    found = True
+                    chk.violation({"what": "a hide block (Type=X / Type=-) is itself listed as an entry", "handler": kind,
+                                   "selectors": markers, "tree": tr["tree"], "dir": tr["dir"],
+                                   "enumeration": [world["children"][i]["name"] for i in g["perms"][0]]},
+                                  tag="c07-hide-marker-listed")
+                pre_c = tr["dir"].strip("/")
+                pre_c = pre_c + "/.cap/" if pre_c else ".cap/"
+                cap_hidden = {t["path"][len(tp(pre_c)):] for t in tr["tree"]
+                              if t["path"].startswith(tp(pre_c)) and t.get("data", "").startswith(("Type=X", "Type=-"))}
+                extra = [n for n in got if n not in exp]
+                if got != exp and kind == "umn" and extra and all(tp(n) in cap_hidden for n in extra) \
+                        and sorted(n for n in got if n in exp) == exp:
+                    found = True
+                    chk.violation({"what": "an entry hidden by its .cap file (Type=X / Type=-) is listed all the same, through a "
+                                           "./ block of a link file", "handler": kind, "relisted": extra,
+                                   "expected_directory_entries": exp, "listed_directory_entries": got,
+                                   "tree": tr["tree"], "dir": tr["dir"],
+                                   "enumeration": [world["children"][i]["name"] for i in g["perms"][0]]},
+                                  tag="c07-cap-hidden-relisted")
+                elif got != exp:
                     found = True
                     chk.violation({"what": "listing is not exactly the visible entries, once each", "handler": kind,
                                    "expected_directory_entries": exp, "listed_directory_entries": got,
